@@ -96,7 +96,8 @@ impl<T> Array<T> {
             None
         } else {
             let offset = index * self.strides[axis.0];
-            let data = &self.data[offset..];
+            // an array with a zero-length axis has no elements: its views are empty, whatever the offset
+            let data = self.data.get(offset..).unwrap_or(&[]);
             let shape = self.shape.remove_axis(axis);
             let strides = self.strides.remove_axis(axis);
 
